@@ -140,7 +140,7 @@ def c13c(ctx, tu):
     """~lifetime_monitor: not died -> one non-fatal report and slot <- null; died -> neither"""
     def edge(fn, cond):
         s = str(cond)
-        if "lifetime_monitor::died" in s and ("member" in s):
+        if lib.died_field(tu) in erase(s) and ("member" in s):
             return "died"
         return None
 
@@ -185,7 +185,7 @@ def c13d(ctx, tu):
     for name in ("trompeloeil::lifetime_monitor::is_satisfied", "trompeloeil::lifetime_monitor::is_saturated"):
         for fn in tu.need(name):
             rets = [e.get("x") for b, e in fn.events() if e["e"] == "return"]
-            ok = len(rets) == 1 and "lifetime_monitor::died" in str(rets[0]) and "'!'" not in str(rets[0])
+            ok = len(rets) == 1 and lib.died_field(tu) in erase(str(rets[0])) and "'!'" not in str(rets[0])
             ctx.ob("C13.d", name, ok, pattern=fn.pat, unit=tu.name,
                    detail="" if ok else "a destruction requirement is satisfied and saturated exactly when the object has died")
     # the monitor registers itself in the object at construction and keeps the reference to the slot
